@@ -1215,6 +1215,8 @@ class Interp(object):
             return args[1]
         if n in BUILTIN_EXC:
             return AObj("builtins." + n, {"args": tuple(args)}, tag="exc")
+        if f.name == "object" and not args and not kwargs:
+            return AObj("builtins.object", {}, tag="sentinel")      # object(): a fresh object, equal only to itself (sentinel idiom)
         if n == "Fraction":
             if all(not isinstance(a, Abs) for a in args):
                 try:
